@@ -83,6 +83,7 @@ inductive SysOp where
   | bFireResend (now : Time) (p : Packet) (k : Nat)  -- a retransmission timer of `b` (for its own traffic) fires, within the budget
   | bFrag (now : Time) (f : Frag)      -- one turn of the fragment loop of a `send` of `b` (its own traffic, this substream)
   | aInject (now : Time) (p : Packet)  -- ANY packet whose signature is not the one `a` expects is handed to `a.handle`
+  | bDisconnect (now : Time)           -- `b`'s application calls `disconnect()` (closing ITS sending direction; it keeps receiving)
   | fireResend (now : Time) (p : Packet) (k : Nat)  -- a retransmission timer of `a` that holds `p` (counter `k`) fires
   | ackIn (now : Time) (p : Packet)    -- `a.handle` is handed ANY acknowledgement (ACK or aggregate MULTI_ACK flag; true, stale,
                                        -- coalesced or forged) of a non-handshake packet
@@ -153,6 +154,7 @@ def Sys.step (env : Env) (sub : Nat) (s : Sys) : SysOp → Sys
   | .bFireResend now p k => { s with b := (s.b.fireOne env now (.resend p k)).c }
   | .bFrag now f => { s with b := (s.b.sendPacket env now (dataPacket sub f)).c }
   | .aInject now p => { s with a := (s.a.handle env now p).c }
+  | .bDisconnect now => { s with b := (s.b.disconnect env now).c }
 
 def Sys.run (env : Env) (sub : Nat) (s : Sys) (ops : List SysOp) : Sys := ops.foldl (Sys.step env sub) s
 
@@ -195,6 +197,7 @@ def Sys.opOk (env : Env) (sub : Nat) (s : Sys) : SysOp → Bool
   | .bFireResend _ _ k => decide (k < s.b.resendLimit) && s.b.linkUp   -- beyond the budget `b` tears its own connection down
   | .bFrag _ _ => true
   | .aInject _ p => decide (p.signature ≠ s.a.expectedSig env p)
+  | .bDisconnect _ => true
 
 def Sys.runOk (env : Env) (sub : Nat) : Sys → List SysOp → Bool
   | _, [] => true
@@ -663,6 +666,7 @@ def Sys.absOp (env : Env) (sub : Nat) (s : Sys) : SysOp → Option Op
   | .bFireResend _ _ _ => none
   | .bFrag _ _ => none
   | .aInject _ _ => none
+  | .bDisconnect _ => none
 
 def stepOpt (ci : Cipher) (size : Nat) (ch : Chan) : Option Op → Chan
   | none => ch
@@ -1026,6 +1030,31 @@ theorem cpl_step (env : Env) (hround : ∀ b, env.decompress (env.compress b) = 
         simp only [Chan.opOk]
         rw [← h.nrel, ← h.log, List.length_map]
         exact hok
+  | bDisconnect now =>
+    simp only [Sys.absOp, stepOpt, Sys.step]
+    by_cases hst : s.b.state ≠ STATE_CONNECTED
+    · have : (s.b.disconnect env now).c = s.b := by unfold Conn.disconnect; rw [if_pos hst]; rfl
+      rw [this]
+      exact ⟨h, fun o ho => by cases ho⟩
+    · have hst' : s.b.state = STATE_CONNECTED := Classical.not_not.mp hst
+      have heof : s.b.eof = false := by
+        cases he : s.b.eof with
+        | false => rfl
+        | true => have := h.beof he; rw [hst'] at this; exact absurd this (by decide)
+      have hd : (s.b.disconnect env now).c =
+          (({ s.b with state := STATE_DISCONNECTING } : Conn).sendPacket env now (mkPacket TYPE_DISCONNECT (FLAG_RELIABLE + FLAG_NEED_ACK))).c := by
+        unfold Conn.disconnect; rw [if_neg hst]
+      rw [hd]
+      have hf := sendPacket_recvFr env now ({ s.b with state := STATE_DISCONNECTING } : Conn)
+        (mkPacket TYPE_DISCONNECT (FLAG_RELIABLE + FLAG_NEED_ACK)) sub h.blink
+      obtain ⟨h1, h2, h3, h4, h5, h6⟩ := rrel_of_recvFr hf (show SubWF ({ s.b with state := STATE_DISCONNECTING } : Conn) sub from h.bwf)
+        (show RRel ({ s.b with state := STATE_DISCONNECTING } : Conn) sub ch.r.core from ⟨h.rrel.closed, h.rrel.out, h.rrel.live⟩)
+      obtain ⟨w, hw, hgw, hwm⟩ := h.bwin
+      have he0 : EofState ({ s.b with state := STATE_DISCONNECTING } : Conn) := fun he => by
+        have : s.b.eof = true := he
+        rw [heof] at this; cases this
+      exact ⟨⟨h.size, h.srel, h.acipher, h.log, h.netgood, h.netord, h5 h.blink, h6 he0, h.sent, h.opn, h.cln, h.pend, h1,
+        ⟨w, by rw [h4]; exact hw, hgw, hwm⟩, h2, h3.trans h.bcipher, h.nrel⟩, fun o ho => by cases ho⟩
   | aInject now p =>
     simp only [Sys.absOp, stepOpt, Sys.step]
     simp only [Sys.opOk, decide_eq_true_eq] at hok
@@ -1201,6 +1230,7 @@ theorem timers_step (env : Env) (sub : Nat) (s : Sys) (op : SysOp) (h : TimersOk
     have := (handle_bad_signature env now s.a p hok).1
     simp only [Sys.step, this]
     exact h
+  | bDisconnect now => exact h
 
 /-- **a retransmission is a re-delivery**: when a retransmission timer of the sender that holds a packet of the channel fires,
     what is handed to the transport is that very packet (or nothing), and it is an element of `net` — a copy of something
